@@ -153,7 +153,7 @@ pub struct ShapeCase {
 	pub s: CandleStream,
 }
 
-fn run_shape(c: &ShapeCase, st: &mut Stats) -> CaseResult {
+pub fn run_shape(c: &ShapeCase, st: &mut Stats) -> CaseResult {
 	let cfg = cfggen::instantiate(&c.cfg).map_err(|e| Failure::new("C11:generator", format!("{}: {e}", c.cfg.name)))?;
 	let name = c.cfg.name.as_str();
 	let cs: Vec<Candle> = c.s.cs.iter().map(|k| k.candle()).collect();
@@ -277,6 +277,7 @@ pub fn def(tier: Tier) -> PropertyDef {
 	}
 	checks.push(pt("result_new", tier.pick(5000, 50000), (proptest::collection::vec(-1e6f64..1e6, 0..8), proptest::collection::vec(prop_oneof![Just(i16::MIN), -255i16..=255], 0..8)).prop_map(|(values, signals)| ResCase { values, signals }), run_result_new));
 	let _ = fail_unused;
+	checks.extend(crate::fuzz_entry::corpus_checks("C11"));
 	PropertyDef {
 		id: "C11",
 		level: "exploration",
